@@ -275,7 +275,8 @@ impl<'a, 'b> Sem<'a, 'b> {
                 ("C", v_comp("NS.C")),
                 ("el", v_comp("NS.el")),
                 ("k-1", v_comp("NS.k-1")),
-                ("a", v_obj(vec![("B", v_comp("NS.a.B"))])),
+                ("button", v_comp("NS.button")),
+                ("a", v_obj(vec![("B", v_comp("NS.a.B")), ("div", v_comp("NS.a.div"))])),
             ]),
         ));
         bound.push((
@@ -466,8 +467,9 @@ impl<'a, 'b> Sem<'a, 'b> {
             1 => match self.c.pick(6) {
                 0 | 1 => Tag::Bound(self.c.choose(&["C1", "C2"]).to_string()),
                 // (`NS.el`'s property name is matched by the "el" pattern: still a component)
-                2 => Tag::Member(self.c.choose(&["NS.C", "NS.a.B", "NS.el", "NS.k-1"]).to_string()),
-                3 | 4 => Tag::Unbound(self.c.choose(&["Foo", "foo-bar", "Bar", "myComp"]).to_string()),
+                // (`NS.button` / `NS.a.div`: the last property is an HTML tag name - still a member host)
+                2 => Tag::Member(self.c.choose(&["NS.C", "NS.a.B", "NS.el", "NS.k-1", "NS.button", "NS.a.div"]).to_string()),
+                3 | 4 => Tag::Unbound(self.c.choose(&["Foo", "foo-bar", "Bar", "myComp", "Ünder", "ünder", "日本"]).to_string()),
                 _ => Tag::Bound("C1".into()),
             },
             2 => {
